@@ -7,14 +7,14 @@ VERIF = os.path.dirname(os.path.dirname(os.path.abspath(__file__)))
 prop, var, checks = sys.argv[1], sys.argv[2], sys.argv[3].split(',')
 tier = sys.argv[4] if len(sys.argv) > 4 else 'quick'
 src = '/tmp/seed-%s/out/%s' % (prop, var)
-r = subprocess.run([os.path.join(VERIF, 'bin', 'seed_verify.sh'), '/tmp/seed-' + prop, var], capture_output=True, text=True)
+r = subprocess.run([os.path.join(VERIF, 'bin', 'seed_verify.sh'), '/tmp/seed-' + prop, var], capture_output=True, text=True, errors='replace')
 res = [l for l in r.stdout.splitlines() if l.startswith('RESULT')]
 print(r.stdout[-1200:])
 if r.returncode != 0:
     print('NOT CONFIRMED:', res)
     sys.exit(1)
 st = subprocess.run([os.path.join(VERIF, 'bin', 'selftest.py'), '--tier', tier, '--checks', ','.join(checks), '--patch', os.path.join(src, 'patch.diff')],
-                    capture_output=True, text=True)
+                    capture_output=True, text=True, errors='replace')
 print(st.stdout[-1500:])
 line = [l for l in st.stdout.splitlines() if l.startswith('patch ')]
 det = json.loads(line[0].split(' ', 1)[1]) if line else {}
@@ -26,8 +26,8 @@ for f in os.listdir(src):
         continue
     if os.path.getsize(os.path.join(src, f)) < 200000:
         shutil.copy(os.path.join(src, f), os.path.join(dst, f))
-notes = open(os.path.join(src, 'notes.md')).read() if os.path.exists(os.path.join(src, 'notes.md')) else ''
-head = subprocess.run(['git', '-C', '/repo', 'rev-parse', '--short', 'HEAD'], capture_output=True, text=True).stdout.strip()
+notes = open(os.path.join(src, 'notes.md'), errors='replace').read() if os.path.exists(os.path.join(src, 'notes.md')) else ''
+head = subprocess.run(['git', '-C', '/repo', 'rev-parse', '--short', 'HEAD'], capture_output=True, text=True, errors='replace').stdout.strip()
 meta = dict(id='%s-%s' % (prop, var), property=prop, checks=checks,
             origin='independent sub-agent given only the property text and a private worktree of /repo at %s' % head,
             needs_to_manifest=notes,
